@@ -461,6 +461,8 @@ impl DOP853 {
                         nonstiff = 0;
                         iasti += 1;
                         if iasti == 15 {
+                            // The step is given up, not delivered: it does not count as accepted
+                            steps.accepted -= 1;
                             status = Status::ProbablyStiff;
                             break;
                         }
